@@ -22,7 +22,7 @@ func checkOnStreamTerminated(p *core.Prog, r *core.Report, rule string) {
 	errP := fn.Params[len(fn.Params)-1]
 	var graceful []core.Edge
 	nTests := map[string]bool{}
-	core.Instrs(fn, func(in ssa.Instruction) {
+	core.InstrsDeep(fn, func(in ssa.Instruction) {
 		ifi, ok := in.(*ssa.If)
 		if !ok {
 			return
@@ -190,7 +190,7 @@ func checkWasmCallClassification(p *core.Prog, r *core.Report, rule string) {
 	// the three situations, recognised by the conditions they sit under
 	var panicEdge, ctxEdge, noCtxEdge []core.Edge
 	for _, member := range members {
-		core.Instrs(member, func(in ssa.Instruction) {
+		core.InstrsDeep(member, func(in ssa.Instruction) {
 			ifi, ok := in.(*ssa.If)
 			if !ok {
 				return
